@@ -81,6 +81,33 @@ def write_if_changed(path, text):
     return True
 
 
+def run_py2v_selftest(force=False):
+    """Differential self-test of the trusted translator (tools/py2v_selftest.py).  It is run only when
+    tools/py2v.py (or the test) is newer than the stamp work/py2v_selftest.stamp left by the last
+    successful run, so normally it costs nothing.  -> (ok, summary line)"""
+    tools = os.path.join(VERIF, "tools")
+    stamp = os.path.join(VERIF, "work", "py2v_selftest.stamp")
+    os.makedirs(os.path.dirname(stamp), exist_ok=True)
+    with Lock(stamp + ".lock"):
+        newest = max(os.path.getmtime(os.path.join(tools, f)) for f in ("py2v.py", "py2v_selftest.py"))
+        if not force and os.path.exists(stamp) and os.path.getmtime(stamp) >= newest:
+            with open(stamp) as f:
+                return True, f.read().strip() + " (cached)"
+        try:
+            rc, out = sh([PY, os.path.join(tools, "py2v_selftest.py")], timeout=900)
+        except Exception as e:             # never let the self-test break its caller
+            rc, out = 1, "could not run: %s" % e
+        line = ([l for l in out.splitlines() if l.startswith("py2v self-test:")] or ["py2v self-test: no summary"])[-1]
+        if rc == 0:
+            with open(stamp, "w") as f:
+                f.write(line + "\n")
+            return True, line
+        if os.path.exists(stamp):
+            os.remove(stamp)
+        return False, line.replace("py2v self-test:", "py2v self-test: FAILED", 1).replace("FAILED FAILED", "FAILED") \
+            + "\n" + out[-3000:]
+
+
 # ------------------------------------------------------------------------- Coq term parser
 _TOK = re.compile(r'\s*(?:(-?\d+)|("(?:[^"]|"")*")|([A-Za-z_][A-Za-z_0-9.\']*)|([\[\]\(\);,]))')
 
@@ -267,6 +294,14 @@ class Check:
                     self.oblige("translate:" + name, False, "%s: %s" % (type(e).__name__, e))
                     self.model_ok = False
                 write_if_changed(path, text)
+
+    def selftest_py2v(self):
+        """Obligation `py2v-selftest` (once per check run; a cached success costs nothing)."""
+        if not getattr(self, "_py2v_tested", False):
+            self._py2v_tested = True
+            ok, line = run_py2v_selftest()
+            self.oblige("py2v-selftest", ok, line)
+        return self.obligations[[o[0] for o in self.obligations].index("py2v-selftest")][1]
 
     def dump_unit(self, unit):
         """Units whose content is dumped from the live module (constant tables, enums, signatures):
